@@ -219,6 +219,15 @@ func c07GenSession(g *Rng, i int, tier string, crRate float64) c07Session {
 		UserName: gs("un"), UserEmail: gs("em"), CommonName: gs("cn"), Surname: gs("sn"), GivenName: gs("gn"),
 		Affiliation: gs("af"), EPPN: gs("ep"), SubjectID: gs("sid"),
 	}
+	if g.Bool(0.05) {
+		// a session that says next to nothing about the user: a name identifier and no attribute at all (or not even that)
+		e := c07Str{Class: "empty"}
+		s.UserName, s.UserEmail, s.CommonName, s.Surname, s.GivenName, s.Affiliation, s.EPPN, s.SubjectID = e, e, e, e, e, e, e, e
+		if g.Bool(0.3) {
+			s.NameID = e
+		}
+		return s
+	}
 	ng := g.PickW(3, 3, 3, 1)
 	for j := 0; j < ng; j++ {
 		s.Groups = append(s.Groups, gs(fmt.Sprintf("g%d_", j)))
@@ -1070,8 +1079,10 @@ func execRoundtrip(t *testing.T, p *Plan) *Result {
 		}
 
 		if out.Panic {
-			res.Excluded = "panic (reported under C09)"
+			// nothing hostile is in play in this profile (the library's own SP, its own IdP, a session of the application's): a panic
+			// is a round trip that did not happen
 			res.logf("panic: %s", short(out.Detail, 100))
+			res.violate(si, "round-trip-panicked", "C07/panic/"+strings.SplitN(out.Detail, ":", 2)[0], "the IdP answers and the SP accepts", "panic", short(out.Detail, 300))
 			return res
 		}
 		// --- the IdP must have built an assertion that is exactly the session
